@@ -359,6 +359,7 @@ partial def loop (h : IO.FS.Stream) (out : IO.FS.Stream) : IO Unit := do
   let line ← h.getLine
   if line.isEmpty then return ()
   out.putStrLn (Drv.answer line)
+  out.flush
   loop h out
 
 def main : IO Unit := do
